@@ -1,38 +1,155 @@
 import SctpVerif.Spec.SenderSpec
 import SctpVerif.Spec.ShiftSpec
+import SctpVerif.Model.Sender
 import SctpVerif.Driver.Util
-/-! line protocol for the direct-drive sender harness (`as …`): predicates only for now -/
+/-!
+Line protocol for the direct-drive sender harness (`as …`).
+
+Every line is (1) replayed through the L0 model `Sender` — the model's prediction is returned and compared
+with the implementation's result by `Driver/Main` (DIFF on mismatch) — and (2) handed to the executable
+predicates of `Spec/SenderSpec` (P_C10 / P_C15), which look at the implementation's results only.
+
+`as ora k=v …` lines precede the op they belong to and carry what the real code decided where the model
+has an oracle: `sel` (indices, in the harness' shadow of the pending queue, of the chunks `peek()` returned),
+`tlr`/`bud` (burst budget state when the gather started), `rtx` (TSNs flagged for retransmission after the op:
+RACK/PTO marks), `t3` (T3 expiries while the clock advanced).
+-/
 namespace Drv.Assoc
 open Drv SenderSpec
 
 structure St where
-  s : SenderSpec.St := {}
+  spec : SenderSpec.St := {}
+  m : Sender.St := default
+  sis : List Nat := []                 -- streams the harness has a Stream object for (ascending)
+  ora : List String := []
   sh : ShiftSpec.St := {}
   deriving Inhabited
 
-def stepSender (st : SenderSpec.St) (op impl : List String) : SenderSpec.St × List String :=
+def oraKey (ora : List String) (k : String) : Option String :=
+  (ora.find? (·.startsWith (k ++ "="))).map fun t => (t.drop (k.length + 1)).toString
+
+def natList (s : Option String) : List Nat :=
+  match s with
+  | none => []
+  | some "-" => []
+  | some t => (t.splitOn ",").filterMap (·.toNat?)
+
+def bv32 (s : String) : BitVec 32 := BitVec.ofNat 32 (parseNat! s)
+
+def parseGapBlocks (g : String) : List (BitVec 16 × BitVec 16) :=
+  if g == "none" then [] else (g.splitOn "+").filterMap fun b => match b.splitOn "-" with
+    | [x, y] => some (BitVec.ofNat 16 (parseNat! x), BitVec.ofNat 16 (parseNat! y))
+    | _ => none
+
+/-! ### rendering the model's observables like the harness does -/
+
+def flagStr (c : Sender.Chunk) : String :=
+  let f := (if c.unordered then "U" else "") ++ (if c.bfrag then "B" else "") ++ (if c.efrag then "E" else "")
+  if f.isEmpty then "-" else f
+
+def chunkStr (il : Bool) (c : Sender.Chunk) : String :=
+  if il then s!"IDATA:{c.tsn.toNat}:{c.si.toNat}:{c.mid.toNat}:{c.fsn.toNat}:{c.len}:{flagStr c}"
+  else s!"DATA:{c.tsn.toNat}:{c.si.toNat}:{c.ssn.toNat}:{c.len}:{flagStr c}"
+
+/-- (marshalled length, chunk summaries) of one packet -/
+def packetKey (il : Bool) (p : List Sender.Chunk) : String :=
+  s!"{Sender.marshalLen il p} " ++ " ".intercalate (p.map (chunkStr il))
+
+/-- the implementation's gather result reduced to its DATA packets: `len chunk chunk …` (checksum token dropped) -/
+def implDataPackets (impl : List String) : List String :=
+  let body := (impl.dropWhile (· != "|")).drop 1
+  let pk := (" ".intercalate body).splitOn " ; "
+  pk.filterMap fun p =>
+    match (p.splitOn " ").filter (· != "") with
+    | len :: _ck :: chunks =>
+      if chunks.any (fun c => c.startsWith "DATA:" || c.startsWith "IDATA:") then some (" ".intercalate (len :: chunks)) else none
+    | _ => none
+
+def stLine (st : St) : String :=
+  let m := st.m
+  let buf := m.penBytes + m.infBytes
+  let strs := st.sis.map fun si => match m.streams (BitVec.ofNat 16 si) with
+    | some s => s!" {si}:{s.buffered.toNat}:{s.cbCount}"
+    | none => s!" {si}:?:?"
+  s!"cwnd={m.cwnd.toNat} ssthresh={m.ssthresh.toNat} rwnd={m.rwnd.toNat} infB={m.infBytes} infN={m.inflight.length} " ++
+  s!"penB={m.penBytes} penN={m.penChunks} buf={buf} cum={m.cumAck.toNat} next={m.myNextTSN.toNat} cblocked=0 fr={if m.inFastRecovery then 1 else 0} |" ++ "".intercalate strs
+
+def insertSorted (l : List Nat) (x : Nat) : List Nat :=
+  if l.contains x then l else (l.filter (· < x)) ++ [x] ++ (l.filter (· > x))
+
+/-- model side: returns the new state and the model's result for this line (`none`: nothing to compare) -/
+def modelStep (st : St) (op impl : List String) : St × Option String :=
+  let implS := " ".intercalate impl
+  match op with
+  | "new" :: mtu :: _rcv :: minCwnd :: il :: tsn :: peerRwnd :: fastRtx :: caStep :: _ =>
+    let il := il == "1"
+    let mtuB := bv32 mtu
+    let cfg : Sender.Cfg := { mtu := mtuB, minCwnd := bv32 minCwnd, fastRtxWnd := bv32 fastRtx, cwndCAStep := bv32 caStep,
+                              useInterleaving := il, maxPayload := Gen.maxPayloadSizeForMTU mtuB il }
+    ({ st with m := Sender.init cfg (bv32 tsn) (bv32 peerRwnd), sis := [], ora := [] }, some s!"{mtuB.toNat} {cfg.maxPayload.toNat}")
+  | ["open", si, u, rt, rv, th] =>
+    let m := Sender.openStream st.m (BitVec.ofNat 16 (parseNat! si)) (u == "1") (BitVec.ofNat 8 (parseNat! rt)) (bv32 rv) (BitVec.ofNat 64 (parseNat! th))
+    ({ st with m := m, sis := insertSorted st.sis (parseNat! si) }, some "ok")
+  | ["unreg", si] => ({ st with m := Sender.unregister st.m (BitVec.ofNat 16 (parseNat! si)) }, some "ok")
+  | ["setstate", b] => ({ st with m := { st.m with established := b == "1" } }, some "ok")
+  | ["ora"] => (st, none)
+  | "ora" :: kvs => ({ st with ora := kvs }, none)
+  | ["write", si, ppi, len] =>
+    let (m, n, e) := Sender.write st.m (BitVec.ofNat 16 (parseNat! si)) (bv32 ppi) (parseNat! len)
+    let es := match e with
+      | .none => "nil" | .tooLarge => "toolarge" | .notEstablished => "notestablished" | .noStream => "nostream" | .hang => "hang"
+    ({ st with m := m }, some s!"{n} {es}")
+  | ["gather"] =>
+    let orc := Sender.tlrOracle (oraKey st.ora "tlr" == some "1") (((oraKey st.ora "bud").bind (·.toInt?)).getD 0)
+    let (m, out) := Sender.gather st.m orc (natList (oraKey st.ora "sel"))
+    let pred := out.packets.map (packetKey st.m.cfg.useInterleaving)
+    let st' := { st with m := m, ora := [] }
+    if pred == implDataPackets impl then (st', some implS)
+    else (st', some ("DATA packets: " ++ (if pred.isEmpty then "nothing" else " ; ".intercalate pred)))
+  | ["sack", cum, arw, gaps, _dups] =>
+    let marks := (natList (oraKey st.ora "rtx")).map (BitVec.ofNat 32)
+    let (m, r) := Sender.sack st.m (bv32 cum) (bv32 arw) (parseGapBlocks gaps) marks
+    let st' := { st with m := m, ora := [] }
+    let accepted := r == .ok || r == .stale || r == .notEstablished
+    if accepted == (impl == ["nil"]) then (st', some implS)
+    else (st', some (if accepted then "nil" else s!"error ({repr r})"))
+  | ["t3", _] => ({ st with m := Sender.t3 st.m }, some "")
+  | ["tick", d] =>
+    let marks := (natList (oraKey st.ora "rtx")).map (BitVec.ofNat 32)
+    let k := ((oraKey st.ora "t3").bind (·.toNat?)).getD 0
+    ({ st with m := Sender.step st.m (.tick (parseNat! d) k marks), ora := [] }, some "")
+  | ["st"] => (st, some (stLine st))
+  | _ => (st, some "bad-op")
+
+/-- predicate side (unchanged protocol: the op is checked when its `st` line arrives) -/
+def specStep (st : SenderSpec.St) (op impl : List String) : SenderSpec.St × List String :=
   match op with
   | "new" :: _mtu :: _rcv :: minCwnd :: _il :: _tsn :: peerRwnd :: _ =>
     match impl with
     | [m, mp] => ({ mtu := parseNat! m, maxPayload := parseNat! mp, minCwnd := parseNat! minCwnd, lastArwnd := parseNat! peerRwnd }, [])
     | _ => ({}, ["[C10] unparsable `as new` result"])
   | ["open", si, _u, _rt, _rv, th] =>
-    ({ st with thresh := setKey st.thresh (parseNat! si) (parseNat! th), pendingCheck := some ("open", op) }, [])
+    let si := parseNat! si
+    -- a stream the association no longer knew is a new object: its counters start again
+    let fresh := st.unreg.contains si
+    let st := if fresh then { st with expBuf := setKey st.expBuf si 0, expCb := setKey st.expCb si 0, unreg := st.unreg.filter (· != si) } else st
+    ({ st with thresh := setKey st.thresh si (parseNat! th), pendingCheck := some ("open", op) }, [])
+  | "ora" :: _ => (st, [])
   | ["st"] =>
     let post := parseObs impl
     match st.pendingCheck with
     | some (_, pop) =>
       let pre := if st.haveObs then st.obs else post
-      -- the op's own result tokens were stashed behind a separator
       let (o, i) := (pop.takeWhile (· != "->"), (pop.dropWhile (· != "->")).drop 1)
       let (st', v) := checkStep st o i pre post
       ({ st' with obs := post, haveObs := true, pendingCheck := none }, v)
     | none => ({ st with obs := post, haveObs := true }, checkObs st post)
   | _ => ({ st with pendingCheck := some ("op", op ++ ["->"] ++ impl) }, [])
 
-def step (st : St) (op impl : List String) : St × List String :=
-  let (s, v) := stepSender st.s op impl
+def step (st : St) (op impl : List String) : St × Option String × List String :=
+  let (sp, v) := specStep st.spec op impl
   let (sh, e) := ShiftSpec.step st.sh op impl
-  ({ s := s, sh := sh }, v ++ e.toList)
+  let (st', r) := modelStep { st with spec := sp, sh := sh } op impl
+  (st', r, v ++ e.toList)
 
 end Drv.Assoc
